@@ -1532,7 +1532,7 @@ def convert_hardswish_to_lut(op: Operation, arch, nng) -> Operation:
             # Compute the input value on essentially the output scale, not shifted yet
             input_value_preshift = fp_math.saturating_rounding_mul16(input_value_hires, out_scale_16)
             # Compute the "relu-ish multiplier". This matches the code in TensorFlow Lite Micro kernel
-            relu_value = np.int16(input_value_hires)
+            relu_value = int(input_value_hires)
             if relu_shift < 31:
                 relu_value = fp_math.shift_left16(relu_value, 30 - relu_shift)
 
@@ -1546,7 +1546,7 @@ def convert_hardswish_to_lut(op: Operation, arch, nng) -> Operation:
 
             # Rescaled the value into a 16bit fixedpoint relu_value in [-1, 1]
             # Now convert that to a 16bit fixedpoint value in [0, 1]
-            relu_value = (relu_value + (1 << 15)) >> 1
+            relu_value = (int(relu_value) + (1 << 15)) >> 1
             lut_result = fp_math.saturating_mul16(relu_value, input_value_preshift)
             shift = 31 - out_shift
             shift = -shift if shift < 0 else 0
